@@ -12,6 +12,7 @@ _ENGINES = {
     "C13": ("sims.layersim", "LayerSim"),
     "C15": ("sims.initsim", "InitSim"),
     "C18": ("sims.datasim", "DataSim"),
+    "C20": ("sims.trainsim", "TrainSim"),
 }
 
 
